@@ -243,6 +243,29 @@ fn named_lists(names: &RefCell<(HashMap<usize, i128>, i128)>, lists: &[&InnerLis
     ok
 }
 
+/// the layer-L shape of a named snapshot (`hdr` header numbers, then per list `n (k v)*n`), for the generators
+pub fn named_to_plain(snap: &Ints, hdr: usize, nlists: usize) -> Ints {
+    let mut out: Ints = snap.iter().take(hdr).cloned().collect();
+    let mut i = hdr;
+    for _ in 0..nlists {
+        if i >= snap.len() {
+            out.push(0);
+            continue;
+        }
+        let n = snap[i] as usize;
+        i += 1;
+        out.push(n as i128);
+        for j in 0..n {
+            if i + 3 * j + 1 < snap.len() {
+                out.push(snap[i + 3 * j]);
+                out.push(snap[i + 3 * j + 1]);
+            }
+        }
+        i += 3 * n + n;
+    }
+    out
+}
+
 /// resident keys of a snapshot made of `hdr` header numbers and `nlists` named lists
 pub fn named_resident(snap: &Ints, hdr: usize, nlists: usize) -> Vec<u64> {
     let mut out = Vec::new();
